@@ -533,11 +533,17 @@ func nativeReplay(file string) (bool, string) {
 			return false, "native cut point not found in " + cut.File
 		}
 		f := filepath.Join(scratch, fmt.Sprintf("cut%d.go", ci))
-		os.WriteFile(f, []byte(strings.Replace(string(src), cut.Old, cut.New, 1)), 0o644)
+		cnt := 1
+		if cut.All {
+			cnt = -1
+		}
+		os.WriteFile(f, []byte(strings.Replace(string(src), cut.Old, cut.New, cnt)), 0o644)
 		repl[filepath.Join(repo, cut.File)] = f
-		w := filepath.Join(scratch, fmt.Sprintf("cutw%d.go", ci))
-		os.WriteFile(w, []byte(cut.Wrapper), 0o644)
-		repl[filepath.Join(repo, cut.Pkg, fmt.Sprintf("zz_cut_%d.go", ci))] = w
+		if cut.Wrapper != "" {
+			w := filepath.Join(scratch, fmt.Sprintf("cutw%d.go", ci))
+			os.WriteFile(w, []byte(cut.Wrapper), 0o644)
+			repl[filepath.Join(repo, cut.Pkg, fmt.Sprintf("zz_cut_%d.go", ci))] = w
+		}
 	}
 	pkgName := packageNameOf(pkgDir)
 	var ps []string
